@@ -133,7 +133,7 @@ func init() {
 		}})
 
 	register(&Rule{ID: "C06.R2", Props: []string{"C06"}, Min: 2, Needs: NeedMain,
-		Doc: "every use of Reader.Next(n) as data is guarded: n<=remaining before, or len(result)==n after, with the failing branch returning a non-nil error",
+		Doc: "every use of Reader.Next(n) as data is guarded: n<=remaining before, or len(result)==n after, with the failing branch returning a non-nil error; and n cannot be negative there (no sign-changing narrowing of the announced length, Next(n<=0) reads nothing)",
 		Run: func(r *R) {
 			next := r.w.Func(codecPkg, "Reader.Next")
 			if next == nil {
@@ -191,6 +191,15 @@ func init() {
 						// and the failing branch must be an error: every path from the call on which the
 						// guard does not hold returns non-nil error
 						ok2, why := mustErrorUnless(fn, call, pc)
+						// the announced length must not have gone through a sign-changing narrowing: Next treats
+						// n <= 0 as "nothing to read", so a length word with the top bit set would yield an empty
+						// string and leave the content bytes to be parsed as the following fields
+						core := stripWiden(n)
+						if cs := setAt(fn, core, call); !cs.subsetOf(rng(0, posInf)) {
+							r.Bad(fname(fn), "Reader.Next length is non-negative", call.Pos(), "the length passed to Next can be negative here (%s, values %s): Next(n<=0) returns an empty slice without consuming the announced content", pathOf(core), cs)
+						} else {
+							r.OK(fname(fn), "Reader.Next length is non-negative", call.Pos(), "length in %s", cs)
+						}
 						if allOK && ok2 {
 							r.OK(fname(fn), "Reader.Next", call.Pos(), "data use is dominated by a length guard whose failing branch returns an error")
 						} else {
